@@ -213,27 +213,60 @@ Lemma trunc_val_keep eps (z : Cx) : kle F eps (kabs (re z)) -> trunc_val eps z =
 Proof. intros H. unfold trunc_val. destruct (kltb (kabs (re z)) eps) eqn:E; [|reflexivity]. apply kltb_spec in E. contradiction. Qed.
 Lemma trunc_val_eps0 eps (z : Cx) : kle F eps r0 -> trunc_val eps z = re z.
 Proof. intros H. apply trunc_val_keep. apply (k_trans F _ r0); [exact H|apply kabs_nonneg]. Qed.
-(* the function returns a value exactly when every imaginary part is below eps (or exactly 0), and then entrywise trunc_val *)
+(* the imaginary-part threshold  thr = eps * max(1, size),  size = the largest |re| of the array (0 for an empty array) *)
+Lemma kmax_l (x y : F) : kle F x (kmax x y).
+Proof. unfold kmax. destruct (kleb F x y) eqn:E; [now apply k_leb|apply k_refl]. Qed.
+Lemma kmax_r (x y : F) : kle F y (kmax x y).
+Proof. unfold kmax. destruct (kleb F x y) eqn:E; [apply k_refl|now destruct (leb_false_lt F _ _ E)]. Qed.
+Lemma kmax_lub (x y c : F) : kle F x c -> kle F y c -> kle F (kmax x y) c.
+Proof. intros A B. unfold kmax. now destruct (kleb F x y). Qed.
+Lemma maxn_nonneg n (f : nat -> F) : kle F r0 (maxn n f).
+Proof. induction n as [|n IH]; cbn [maxn]; [apply k_refl|]. apply (k_trans F _ (maxn n f)); [exact IH|apply kmax_l]. Qed.
+Lemma maxn_ge n (f : nat -> F) i : (i < n)%nat -> kle F (f i) (maxn n f).
+Proof. induction n as [|n IH]; [lia|]. intros Hi. cbn [maxn]. destruct (Nat.eq_dec i n) as [->|Hn]; [apply kmax_r|].
+  apply (k_trans F _ (maxn n f)); [apply IH; lia|apply kmax_l]. Qed.
+Lemma maxn_lub n (f : nat -> F) c : kle F r0 c -> (forall i, (i < n)%nat -> kle F (f i) c) -> kle F (maxn n f) c.
+Proof. intros Hc. induction n as [|n IH]; intros Hf; cbn [maxn]; [exact Hc|]. apply kmax_lub; [apply IH; intros i Hi; apply Hf; lia|apply Hf; lia]. Qed.
+(* hs_size is the largest |re H_ij| (least upper bound among the non-negative bounds) *)
+Lemma hs_size_ge m n (H : cmat) i j : (i < m)%nat -> (j < n)%nat -> kle F (kabs (re (H i j))) (hs_size m n H).
+Proof. intros Hi Hj. unfold hs_size. apply (k_trans F _ (maxn n (fun j => kabs (re (H i j))))).
+  - exact (maxn_ge n (fun j => kabs (re (H i j))) j Hj).
+  - exact (maxn_ge m (fun i => maxn n (fun j => kabs (re (H i j)))) i Hi). Qed.
+Lemma hs_size_lub m n (H : cmat) c : kle F r0 c -> (forall i j, (i < m)%nat -> (j < n)%nat -> kle F (kabs (re (H i j))) c) -> kle F (hs_size m n H) c.
+Proof. intros Hc Hb. unfold hs_size. apply maxn_lub; [exact Hc|]. intros i Hi. apply maxn_lub; [exact Hc|]. intros j Hj. now apply Hb. Qed.
+Lemma vec_size_ge n (v : cvec) i : (i < n)%nat -> kle F (kabs (re (v i))) (vec_size n v).
+Proof. intros Hi. exact (maxn_ge n (fun i => kabs (re (v i))) i Hi). Qed.
+Lemma vec_size_lub n (v : cvec) c : kle F r0 c -> (forall i, (i < n)%nat -> kle F (kabs (re (v i))) c) -> kle F (vec_size n v) c.
+Proof. intros Hc Hb. unfold vec_size. now apply maxn_lub. Qed.
+(* for arrays whose real parts do not exceed 1 the threshold is eps itself (the behaviour before fix truncate-hs-relative-imag-threshold) *)
+Lemma im_thr_small eps size : kle F size (c1 F) -> im_thr eps size = eps.
+Proof. intros Hs. unfold im_thr, kmax. destruct (kleb F (c1 F) size) eqn:E.
+  - apply k_leb in E. rewrite (k_antisym F _ _ Hs E). ring.
+  - ring. Qed.
+(* and it never falls below eps *)
+Lemma im_thr_ge eps size : kle F r0 eps -> kle F eps (im_thr eps size).
+Proof. intros He. unfold im_thr. replace eps with (cmul F eps (c1 F)) at 1 by ring. apply mul_le_compat_nonneg; [exact He|apply kmax_l]. Qed.
+(* the function returns a value exactly when every imaginary part is below the threshold (or exactly 0), and then entrywise trunc_val *)
 Lemma truncate_hs_spec eps m n (H : cmat) :
-  (forall i j, (i < m)%nat -> (j < n)%nat -> trunc_ok eps (H i j) = true) /\ truncate_hs eps m n H = Some (fun i j => trunc_val eps (H i j))
-  \/ (exists i j, (i < m)%nat /\ (j < n)%nat /\ trunc_ok eps (H i j) = false) /\ truncate_hs eps m n H = None.
-Proof. unfold truncate_hs. destruct (allb m (fun i => allb n (fun j => trunc_ok eps (H i j)))) eqn:E.
+  (forall i j, (i < m)%nat -> (j < n)%nat -> trunc_ok (im_thr eps (hs_size m n H)) (H i j) = true) /\ truncate_hs eps m n H = Some (fun i j => trunc_val eps (H i j))
+  \/ (exists i j, (i < m)%nat /\ (j < n)%nat /\ trunc_ok (im_thr eps (hs_size m n H)) (H i j) = false) /\ truncate_hs eps m n H = None.
+Proof. unfold truncate_hs. cbv zeta. set (thr := im_thr eps (hs_size m n H)). destruct (allb m (fun i => allb n (fun j => trunc_ok thr (H i j)))) eqn:E.
   - left. split; [|reflexivity]. intros i j Hi Hj. pose proof (proj1 (allb_true _ _) E i Hi) as E1. exact (proj1 (allb_true _ _) E1 j Hj).
   - right. split; [|reflexivity]. destruct (allb_false _ _ E) as [i [Hi Ei]]. destruct (allb_false _ _ Ei) as [j [Hj Ej]]. now exists i, j. Qed.
 Lemma truncate_vec_spec eps n (v : cvec) :
-  (forall i, (i < n)%nat -> trunc_ok eps (v i) = true) /\ truncate_vec eps n v = Some (fun i => trunc_val eps (v i))
-  \/ (exists i, (i < n)%nat /\ trunc_ok eps (v i) = false) /\ truncate_vec eps n v = None.
-Proof. unfold truncate_vec. destruct (allb n (fun i => trunc_ok eps (v i))) eqn:E.
+  (forall i, (i < n)%nat -> trunc_ok (im_thr eps (vec_size n v)) (v i) = true) /\ truncate_vec eps n v = Some (fun i => trunc_val eps (v i))
+  \/ (exists i, (i < n)%nat /\ trunc_ok (im_thr eps (vec_size n v)) (v i) = false) /\ truncate_vec eps n v = None.
+Proof. unfold truncate_vec. cbv zeta. set (thr := im_thr eps (vec_size n v)). destruct (allb n (fun i => trunc_ok thr (v i))) eqn:E.
   - left. split; [|reflexivity]. exact (proj1 (allb_true _ _) E).
   - right. split; [|reflexivity]. now apply allb_false. Qed.
 Lemma truncate_hs_real eps m n (H : cmat) : (forall i j, (i < m)%nat -> (j < n)%nat -> im (H i j) = r0) ->
   truncate_hs eps m n H = Some (fun i j => trunc_val eps (H i j)).
 Proof. intros Hr. destruct (truncate_hs_spec eps m n H) as [[_ E]|[[i [j [Hi [Hj E]]]] _]]; [exact E|].
-  assert (T : trunc_ok eps (H i j) = true) by (apply trunc_ok_spec; right; now apply Hr). congruence. Qed.
+  assert (T : trunc_ok (im_thr eps (hs_size m n H)) (H i j) = true) by (apply trunc_ok_spec; right; now apply Hr). congruence. Qed.
 Lemma truncate_vec_real eps n (v : cvec) : (forall i, (i < n)%nat -> im (v i) = r0) ->
   truncate_vec eps n v = Some (fun i => trunc_val eps (v i)).
 Proof. intros Hr. destruct (truncate_vec_spec eps n v) as [[_ E]|[[i [Hi E]] _]]; [exact E|].
-  assert (T : trunc_ok eps (v i) = true) by (apply trunc_ok_spec; right; now apply Hr). congruence. Qed.
+  assert (T : trunc_ok (im_thr eps (vec_size n v)) (v i) = true) by (apply trunc_ok_spec; right; now apply Hr). congruence. Qed.
 (* on legitimate input the implementations return the specified real representation, entries below eps set to 0 *)
 Lemma vec_of_op_impl_ok eps d (B : nat -> cmat) (X : cmat) : basis_hermitian d B -> hermitian d X ->
   vec_of_op_impl eps d B X = Some (fun a => trunc_val eps (cvec_of_op d B X a)).
@@ -261,6 +294,30 @@ Lemma var_of_choi_spec_round_trip d (B : nat -> cmat) para (v : rvec) k : basis_
   var_of_choi_spec d B para (choi_of_var d B para v) k = v k.
 Proof. intros Ho H. destruct (var_index d para k H) as [A [A2 HD]]. rewrite <- (var_of_hs_of_var d para v k H).
   unfold var_of_choi_spec, choi_of_var, var_of_hs. now apply hs_of_choi_of_hs. Qed.
+(* gate.to_var_from_choi as repaired (fix gate-to-var-from-choi-inverse-map): on the Choi matrix of ANY variable vector it does not
+   raise and returns the variables, entries of modulus below eps set to 0 (the truncation every Choi->HS conversion applies) *)
+Lemma var_of_choi_fixed_round_trip eps d (B : nat -> cmat) para (v : rvec) : basis_orthonormal d B ->
+  exists w, var_of_choi_fixed eps d B para (choi_of_var d B para v) = Some w /\
+            forall k, (k < var_len d para)%nat -> w k = trunc_val eps (zof (v k)).
+Proof. intros Ho. unfold var_of_choi_fixed, hs_of_choi_sparse_impl.
+  assert (R : forall a b, (a < d * d)%nat -> (b < d * d)%nat ->
+              chs_of_choi d B (choi_of_var d B para v) a b = zof (hs_of_var d para v a b)).
+  { intros a b Ha Hb. unfold choi_of_var. exact (chs_of_cchoi F d B (cof (hs_of_var d para v)) a b Ho Ha Hb). }
+  rewrite (truncate_hs_real eps (d * d) (d * d) (chs_of_choi d B (choi_of_var d B para v))).
+  2:{ intros a b Ha Hb. rewrite (R a b Ha Hb). reflexivity. }
+  eexists. split; [reflexivity|]. intros k Hk. destruct (var_index d para k Hk) as [A [A2 HD]].
+  unfold var_of_hs at 1. rewrite (R _ _ A A2). rewrite <- (var_of_hs_of_var d para v k Hk). reflexivity. Qed.
+Lemma var_of_choi_fixed_exact eps d (B : nat -> cmat) para (v : rvec) : basis_orthonormal d B ->
+  (forall k, (k < var_len d para)%nat -> v k = r0 \/ kle F eps (kabs (v k))) ->
+  exists w, var_of_choi_fixed eps d B para (choi_of_var d B para v) = Some w /\ forall k, (k < var_len d para)%nat -> w k = v k.
+Proof. intros Ho Hv. destruct (var_of_choi_fixed_round_trip eps d B para v Ho) as [w [E W]]. exists w. split; [exact E|].
+  intros k Hk. rewrite (W k Hk). destruct (Hv k Hk) as [Z|L].
+  - destruct (trunc_val_cases eps (zof (v k))) as [T|[T _]]; rewrite T; [reflexivity|now rewrite Z].
+  - now apply trunc_val_keep. Qed.
+(* ... and it raises exactly when to_hs_from_choi_with_sparsity does *)
+Lemma var_of_choi_fixed_none eps d (B : nat -> cmat) para (Ch : cmat) :
+  var_of_choi_fixed eps d B para Ch = None <-> hs_of_choi_sparse_impl eps d B Ch = None.
+Proof. unfold var_of_choi_fixed. destruct (hs_of_choi_sparse_impl eps d B Ch); split; congruence. Qed.
 (* ------------------------------------------------------------------ defining formula of the process matrix *)
 Lemma sandwich_comp d (X : cmat) al be p q : (al < d * d)%nat -> (be < d * d)%nat ->
   sandwich d (comp_basis d al) X (cadj (comp_basis d be)) p q =
@@ -339,19 +396,86 @@ Definition hs_hadamard_pauli (a b : nat) : Qc :=
 Definition hs_HI : rmat Qc_OF := fun a b => if Nat.eqb (a mod 4) (b mod 4) then hs_hadamard_pauli (a / 4) (b / 4) else 0%Qc.
 Definition var_HI : rvec Qc_OF := var_of_hs 4 true hs_HI.
 
-(* DEFECT (gate.to_var_from_choi calls the forward map): the round trip Choi(var) -> var fails on the faithful model,
+(* DEFECT of gate.to_var_from_choi AS CODED BEFORE fix gate-to-var-from-choi-inverse-map (it called the forward map): the round trip Choi(var) -> var fails on that model,
    while the specified conversion returns the variable. Witness: H (x) I, variable index 1 (HS entry (1,1) = 1, implementation yields 0). *)
 Lemma to_var_from_choi_witness :
-  ceqb (var_of_choi_impl 4 P2 true (choi_of_var 4 P2 true var_HI) 1%nat) (zof (F := Qc_OF) (var_HI 1%nat)) = false.
+  ceqb (var_of_choi_before_fix 4 P2 true (choi_of_var 4 P2 true var_HI) 1%nat) (zof (F := Qc_OF) (var_HI 1%nat)) = false.
 Proof. vm_compute. reflexivity. Qed.
-Lemma to_var_from_choi_refuted :
+Lemma to_var_from_choi_before_fix_refuted :
   exists (d : nat) (B : nat -> cmat Qc_OF) (v : rvec Qc_OF) (k : nat),
     basis_orthonormal d B /\ basis_complete d B /\ basis_hermitian d B /\ (k < var_len d true)%nat /\
     var_of_choi_spec d B true (choi_of_var d B true v) k = v k /\
-    var_of_choi_impl d B true (choi_of_var d B true v) k <> zof (v k).
+    var_of_choi_before_fix d B true (choi_of_var d B true v) k <> zof (v k).
 Proof. exists 4%nat, P2, var_HI, 1%nat.
   split; [exact pauli2n_orthonormal|]. split; [exact pauli2n_complete|]. split; [exact pauli2n_hermitian|].
   split; [vm_compute; lia|]. split.
   - apply var_of_choi_spec_round_trip; [exact pauli2n_orthonormal|vm_compute; lia].
   - intros E. pose proof to_var_from_choi_witness as W. rewrite E in W.
     rewrite (proj2 (ceqb_true_iff Qc_OF _ _) eq_refl) in W. discriminate W. Qed.
+
+(* ================================================================== the conjunctions stated as property theorems in Props/C02.v *)
+Lemma complex_hs_choi_round_trips_thm : forall (F : OF) d (B : nat -> cmat F),
+  (basis_orthonormal d B -> forall (H : cmat F) a b, (a < d * d)%nat -> (b < d * d)%nat ->
+     chs_of_choi d B (cchoi_of_hs d B H) a b = H a b) /\
+  (basis_complete d B -> forall (Ch : cmat F) i j, (i < d * d)%nat -> (j < d * d)%nat ->
+     cchoi_of_hs d B (chs_of_choi d B Ch) i j = Ch i j).
+Proof. intros F d B. split; intros HB M a b Ha Hb; [now apply chs_of_cchoi|now apply cchoi_of_chs]. Qed.
+Lemma choi_isometry_thm : forall (F : OF) d (B : nat -> cmat F), basis_orthonormal d B ->
+  (forall H H' : cmat F, hs_inner (d * d) (cchoi_of_hs d B H) (cchoi_of_hs d B H') = hs_inner (d * d) H H') /\
+  (forall HS HS' : rmat F, hs_inner (d * d) (choi_of_hs d B HS) (choi_of_hs d B HS') = zof (inner (d * d) (d * d) HS HS')).
+Proof. intros F d B Ho. split; intros; [now apply cchoi_isometry|now apply choi_frobenius]. Qed.
+Lemma variants_agree_thm : forall (F : OF) d (B : nat -> cmat F),
+  (forall (c : cvec F) i j, (j < d)%nat -> density_sparse d B c i j = op_of_cvec d B c i j) /\
+  (forall (X : cmat F) a, cvec_sparse d B X a = cvec_of_op d B X a) /\
+  (forall (H : cmat F) i j, (j < d * d)%nat -> choi_sparse d B H i j = cchoi_of_hs d B H i j) /\
+  (forall (H : cmat F) i j, choi_dict d B H i j = cchoi_of_hs d B H i j) /\
+  (forall (Ch : cmat F) a b, (b < d * d)%nat -> chs_sparse d B Ch a b = chs_of_choi d B Ch a b) /\
+  (basis_hermitian d B -> forall (Ch : cmat F) a b, (a < d * d)%nat -> (b < d * d)%nat -> chs_dict d B Ch a b = chs_of_choi d B Ch a b).
+Proof. intros F d B. repeat split; intros.
+  - now apply density_sparse_eq. - apply cvec_sparse_eq. - now apply choi_sparse_eq. - apply choi_dict_eq.
+  - now apply chs_sparse_eq. - rewrite chs_dict_eq. now apply chs_of_choi_dict_eq. Qed.
+Lemma linearity_thm : forall (F : OF) d (B B' : nat -> cmat F),
+  (forall (v w : rvec F) i j, op_of_vec d B (vadd v w) i j = madd (op_of_vec d B v) (op_of_vec d B w) i j) /\
+  (forall (k : F) (v : rvec F) i j, op_of_vec d B (vscale k v) i j = mscale (zof k : CF F) (op_of_vec d B v) i j) /\
+  (forall (X Y : cmat F) a, cvec_of_op d B (madd X Y) a = vadd (cvec_of_op d B X) (cvec_of_op d B Y) a) /\
+  (forall (k : CF F) (X : cmat F) a, cvec_of_op d B (mscale k X) a = vscale k (cvec_of_op d B X) a) /\
+  (forall (H H' : cmat F) i j, cchoi_of_hs d B (madd H H') i j = madd (cchoi_of_hs d B H) (cchoi_of_hs d B H') i j) /\
+  (forall (k : CF F) (H : cmat F) i j, cchoi_of_hs d B (mscale k H) i j = mscale k (cchoi_of_hs d B H) i j) /\
+  (forall (Ch Ch' : cmat F) a b, chs_of_choi d B (madd Ch Ch') a b = madd (chs_of_choi d B Ch) (chs_of_choi d B Ch') a b) /\
+  (forall (k : CF F) (Ch : cmat F) a b, chs_of_choi d B (mscale k Ch) a b = mscale k (chs_of_choi d B Ch) a b) /\
+  (forall (H H' : cmat F) a b, convert_hs d B B' (madd H H') a b = madd (convert_hs d B B' H) (convert_hs d B B' H') a b) /\
+  (forall (k : CF F) (H : cmat F) a b, convert_hs d B B' (mscale k H) a b = mscale k (convert_hs d B B' H) a b) /\
+  (forall (v w : cvec F) a, convert_vec d B B' (vadd v w) a = vadd (convert_vec d B B' v) (convert_vec d B B' w) a) /\
+  (forall (k : CF F) (v : cvec F) a, convert_vec d B B' (vscale k v) a = vscale k (convert_vec d B B' v) a) /\
+  map_linear d (capply_hs d B (fun _ _ => c0 (CF F))) /\ (forall Ks : list (cmat F), map_linear d (kraus_apply d Ks)).
+Proof. intros F d B B'. repeat split; intros.
+  - apply op_of_vec_add. - apply op_of_vec_scale. - apply cvec_of_op_add. - apply cvec_of_op_scale.
+  - apply cchoi_of_hs_add. - apply cchoi_of_hs_scale. - apply chs_of_choi_add. - apply chs_of_choi_scale.
+  - apply convert_hs_add. - apply convert_hs_scale. - apply convert_vec_add. - apply convert_vec_scale.
+  - apply (proj1 (capply_hs_linear F d B _)); assumption. - apply (proj2 (capply_hs_linear F d B _)); assumption.
+  - apply (proj1 (kraus_apply_linear F d Ks)); assumption. - apply (proj2 (kraus_apply_linear F d Ks)); assumption. Qed.
+Lemma truncate_hs_threshold_thm : forall (F : OF) (eps : F) m n (H : cmat F),
+  (forall i j, (i < m)%nat -> (j < n)%nat -> kle F (kabs (re (H i j))) (hs_size m n H)) /\
+  (forall c, kle F (c0 F) c -> (forall i j, (i < m)%nat -> (j < n)%nat -> kle F (kabs (re (H i j))) c) -> kle F (hs_size m n H) c) /\
+  (forall thr (z : CF F), trunc_ok thr z = true <-> (~ kle F thr (kabs (im z)) \/ im z = c0 F)) /\
+  (kle F (hs_size m n H) (c1 F) -> im_thr eps (hs_size m n H) = eps) /\
+  (kle F (c0 F) eps -> kle F eps (im_thr eps (hs_size m n H))).
+Proof. intros F eps m n H. split; [|split; [|split; [|split]]].
+  - intros i j Hi Hj. now apply hs_size_ge.
+  - intros c Hc Hb. now apply hs_size_lub.
+  - intros thr z. apply trunc_ok_spec.
+  - apply im_thr_small.
+  - apply im_thr_ge. Qed.
+Lemma truncating_conversions_ok_thm : forall (F : OF) (eps : F) d (B : nat -> cmat F), basis_hermitian d B ->
+  (forall X : cmat F, hermitian d X -> vec_of_op_impl eps d B X = Some (fun a => trunc_val eps (cvec_of_op d B X a))) /\
+  (forall Ch : cmat F, hermitian (d * d) Ch -> hs_of_choi_sparse_impl eps d B Ch = Some (fun a b => trunc_val eps (chs_of_choi d B Ch a b))) /\
+  (forall Ks : list (cmat F), hs_of_kraus_impl eps d B Ks = Some (fun a b => trunc_val eps (chs_of_kraus_impl d B Ks a b))) /\
+  (forall z : CF F, trunc_val eps z = re z \/ (trunc_val eps z = c0 F /\ ~ kle F eps (kabs (re z)))).
+Proof. intros F eps d B Hh. repeat split; intros.
+  - now apply vec_of_op_impl_ok. - now apply hs_of_choi_sparse_impl_ok. - now apply hs_of_kraus_impl_ok. - apply trunc_val_cases. Qed.
+Lemma to_var_from_choi_round_trip_thm : forall (F : OF) (eps : F) d (B : nat -> cmat F) para (v : rvec F), basis_orthonormal d B ->
+  (exists w, var_of_choi_fixed eps d B para (choi_of_var d B para v) = Some w /\
+             forall k, (k < var_len d para)%nat -> w k = trunc_val eps (zof (v k))) /\
+  ((forall k, (k < var_len d para)%nat -> v k = c0 F \/ kle F eps (kabs (v k))) ->
+   exists w, var_of_choi_fixed eps d B para (choi_of_var d B para v) = Some w /\ forall k, (k < var_len d para)%nat -> w k = v k).
+Proof. intros F eps d B para v Ho. split; [now apply var_of_choi_fixed_round_trip|now apply var_of_choi_fixed_exact]. Qed.
